@@ -166,7 +166,9 @@ CLAIMS = {
              'x.nonzero() and x.negate() for nullable and required int / bool / str attributes, arithmetic expressions, boolean expressions and objects, evaluated under SQL three-valued logic '
              'over a symbolic row (every column (is_null, value)), keeps a row iff Python truth of x / not x (missing values falsy); CmpMonad.negate and BoolExprMonad.negate are the 3VL NOT of the '
              'original condition and involutive. String slicing (C25), LIKE (C06) and limit/offset (C24) are checked under those properties.',
-        note='The translator as a whole (monad dispatch, joins, subqueries, aggregates, row decoding, hybrid methods) is out of reach of per-function contracts and NOT covered. '
+        note='The translator as a whole (monad dispatch, joins, subqueries, aggregates, row decoding, hybrid methods) is out of reach of per-function contracts: only BOUNDED (never counted as proved) on real SQLite: '
+             '~115 row conditions against a 3VL reference interpreter, ~35 whole queries with hand-written Python equivalents, ~215 generated aggregate conditions (sum / min / max / avg / count over collections, '
+             'attribute path and generator form, with and without the JOIN() hint). '
              'Trusted: the 3VL evaluator; strings represented by their length; monad.nullable accurate.'),
     'C02': dict(
         text='PARTIAL, derived: the dialect-quantified contracts of C01 (truth tests), C06 (string literals per value class, LIKE escape per dialect, MOD), C24 (LIMIT without bound per dialect) '
@@ -276,7 +278,9 @@ CLAIMS = {
              'one-to-many from either side, many-to-many link / unlink / whole-collection assignment, symmetric many-to-many, flushes, commit(), rollback(), session end, failing sessions) '
              'run on real SQLite and on a reference model: after every commit the database holds exactly the objects, values and links of the model, after a rollback / failing session / '
              'failing flush nothing since the last commit is visible; symmetric links stored both ways; no dangling reference. Exhaustive histories of <= 2 operations x ways of ending the '
-             'session; 1000 (thorough: 150000) random histories of <= 10 steps generated from VERIF_SEED.',
+             'session; 1000 (thorough: 150000) random histories of <= 10 steps generated from VERIF_SEED; each history with objects loaded on demand and with everything loaded beforehand '
+             '(one flush at the end). Collection histories: every sequence of <= 3 of 15 add / remove / assign / clear operations on one collection (many-to-many from either side, one-to-many, '
+             '3 initial contents, loaded or not): session content and committed rows equal the set the operations leave.',
         note='A relation between the database and a reference model over whole histories: no single-call contract expresses it; this is model-based exploration of the write path used as a '
              'bounded stand-in. The reference model (70 lines) is trusted.'),
 }
